@@ -78,6 +78,16 @@ CHECKS = {
         technique='exhaustive short strings over a nasty character alphabet + all truncations and seeded single-character mutations of TLC-derived programs, run under a watchdog; exception type judged directly, message positions validated by PosTrace.tla (LineCol machine)',
         text='Every string up to length k over 39 characters (incl. NUL, lone surrogate, astral, BOM, LS, quote / backslash / slash / star starters) and longer ones over 18 characters, plus every truncation and seeded single-character deletion / replacement / insertion of TLC-derived programs, is parsed with and without comment capture and lexed: the outcome must be a tree or ECMASyntaxError (subclass), within the watchdog; TLC checks that the line:column of each message is a LineCol position of the input at which the quoted text occurs.  Totality is explored on this domain, not proved.',
         note='Watchdog 10 s per input stands for non-termination; RecursionError is treated as a Python resource limit; the message grammar is parsed by the harness.'),
+    'C14': dict(
+        category='model_checking', design_ref='5 (C14)',
+        technique='TLC enumerates all call histories (start / step / finish / abandon / raise, two generators alive) from PureCalls.tla; each is performed on real reused printer objects; recorded result / tree / shared-state digests validated by PureTrace.tla',
+        text='Every history of MaxLen operations over two reused printer objects (five configurations incl. obfuscating and indenting ones) and three trees - with calls abandoned after partial consumption, calls that raise midway on a malformed tree, and two generators stepped alternately - is performed; TLC validates every recorded history: each finished call yields exactly the fragment sequence of a fresh printer, the trees (with positions and token maps) and the shared objects (surrogate Elision separator, definitions, rule tables) never change.  The shortcuts str(node) and es5.pretty_print / minify_print on text are compared with the explicit calls.',
+        note='Digests (sha1 over reflection snapshots) stand for equality; the reference result comes from a fresh printer object before any history is performed.'),
+    'C15': dict(
+        category='model_checking', design_ref='5 (C15)',
+        technique='reference outcomes from a fresh interpreter per call; sequential histories enumerated over a pool of valid / invalid texts; token-level interleavings of two parses enumerated by TLC (PureCalls.tla) and realised with real threads gated at every token; thread-pool stress; all recorded histories validated by PureTrace.tla',
+        text='Over a pool of 10 texts (half invalid: unclosed parenthesis, surplus parenthesis, lexical error, syntax error, production error) x comment flag: sequential histories of two and three calls; every interleaving at token granularity of two parses (TLC-enumerated schedules executed by gating real threads inside the lexer token hand-over); free-running thread pools under three switch intervals.  TLC checks for every recorded history that each finished call returns the outcome (tree with positions, or exception type and message) a fresh interpreter gives.',
+        note='Pre-emption inside a token step is stressed, not enumerated; outcome equality is by digest.'),
 }
 
 NOT_YET = {}
